@@ -1,6 +1,6 @@
 #!/bin/sh
 # tools/verify_seed.sh <ID> <variant> [patchfile]: confirm a seeded change in a scratch worktree of /repo HEAD and store it
-ID="$1"; V="$2"; SRC=/tmp/seed/$ID/seed/$V; [ -d "$SRC" ] || SRC=/tmp/seed2/$ID/seed/$V; [ -d "$SRC" ] || SRC=/tmp/seed3/$ID/seed/$V; [ -d "$SRC" ] || SRC=/tmp/seed4/$ID/seed/$V; [ -d "$SRC" ] || SRC=/verif/seeded/$ID-$V; PATCH="${3:-$SRC/patch.diff}"
+ID="$1"; V="$2"; SRC=/tmp/seed5/$ID/seed/$V; [ -d "$SRC" ] || SRC=/tmp/seed/$ID/seed/$V; [ -d "$SRC" ] || SRC=/tmp/seed2/$ID/seed/$V; [ -d "$SRC" ] || SRC=/tmp/seed3/$ID/seed/$V; [ -d "$SRC" ] || SRC=/tmp/seed4/$ID/seed/$V; [ -d "$SRC" ] || SRC=/verif/seeded/$ID-$V; PATCH="${3:-$SRC/patch.diff}"
 WT=$(mktemp -d /tmp/sv.XXXXXX)/r
 git -C /repo worktree add -q "$WT" HEAD || exit 9
 cd "$WT"
